@@ -58,8 +58,8 @@ impl Ord for CountedEp {
 #[derive(Clone, Debug, PartialEq, Eq, Hash, Serialize, Deserialize)]
 pub enum Case {
     Retention { upload: bool, intervening: u16, seed: u16, buffered_blocks: u8 },
-    Expiry { upload: bool, millis: u16 },
-    Reclaim { abandoned: u8, millis: u16, uploads: bool },
+    Expiry { upload: bool, millis: u16, #[serde(default)] busy: bool },
+    Reclaim { abandoned: u8, millis: u16, uploads: bool, #[serde(default)] busy: bool },
 }
 
 const BUDGET: usize = 96;
@@ -161,6 +161,26 @@ fn traffic_on_other_keys(h: &mut BlockHandler<CountedEp>, live: &Arc<AtomicIsize
     Ok(())
 }
 
+/// Stays away from key K for more than four times the expiry.  When `busy`,
+/// the handler keeps serving other keys at intervals shorter than the expiry.
+fn idle(h: &mut BlockHandler<CountedEp>, live: &Arc<AtomicIsize>, d: Duration, busy: bool) -> Result<(), Fail> {
+    let total = d * 4 + Duration::from_millis(20);
+    if !busy {
+        std::thread::sleep(total);
+        return Ok(());
+    }
+    let t0 = std::time::Instant::now();
+    let step = d / 3;
+    let mut i = 0u16;
+    while t0.elapsed() < total {
+        std::thread::sleep(step);
+        let ep = CountedEp::new(5000 + (i % 3) as u32, live);
+        do_exchange(h, &ep, &get(b"busy", i, 1, None), &small_reply())?;
+        i += 1;
+    }
+    Ok(())
+}
+
 pub fn check(_ctx: &Ctx, c: &Case, acc: &mut Acc) -> Result<(), Fail> {
     let live = Arc::new(AtomicIsize::new(0));
     match c {
@@ -208,7 +228,7 @@ pub fn check(_ctx: &Ctx, c: &Case, acc: &mut Acc) -> Result<(), Fail> {
                 acc.class("retention:>=100-intervening");
             }
         }
-        Case::Expiry { upload, millis } => {
+        Case::Expiry { upload, millis, busy } => {
             let d = Duration::from_millis(*millis as u64);
             let mut h: BlockHandler<CountedEp> = new_handler(BUDGET, d);
             let me = CountedEp::new(1, &live);
@@ -216,7 +236,7 @@ pub fn check(_ctx: &Ctx, c: &Case, acc: &mut Acc) -> Result<(), Fail> {
                 let first = vec![0xAB; 16];
                 let (out, calls) = do_exchange(&mut h, &me, &put(b"k", 1, 3, block_bytes(0, true, 0), first.clone()), &small_reply())?;
                 ensure!(calls == 0 && out.served_by_handler(), "harness", "buffering a block did not work");
-                std::thread::sleep(d * 4 + Duration::from_millis(20));
+                idle(&mut h, &live, d, *busy)?;
                 let (out, calls) = do_exchange(&mut h, &me, &put(b"k", 2, 3, block_bytes(1, false, 0), vec![0xCD; 7]), &small_reply())?;
                 if calls == 1 {
                     let saw = out.app_saw.clone().unwrap_or_default();
@@ -229,7 +249,7 @@ pub fn check(_ctx: &Ctx, c: &Case, acc: &mut Acc) -> Result<(), Fail> {
                 acc.class("expiry:upload");
             } else {
                 let blk = open_download(&mut h, &me, b"k", 9)?;
-                std::thread::sleep(d * 4 + Duration::from_millis(20));
+                idle(&mut h, &live, d, *busy)?;
                 let (out, calls) = do_exchange(&mut h, &me, &get(b"k", 2, 1, Some(block_bytes(1, false, blk.szx))), &big_reply(0x44))?;
                 ensure!(
                     calls == 1 && !out.served_by_handler(),
@@ -238,9 +258,12 @@ pub fn check(_ctx: &Ctx, c: &Case, acc: &mut Acc) -> Result<(), Fail> {
                 );
                 acc.class("expiry:download");
             }
+            if *busy {
+                acc.class("expiry:handler-busy-with-other-keys");
+            }
             acc.nontrivial(fp(c));
         }
-        Case::Reclaim { abandoned, millis, uploads } => {
+        Case::Reclaim { abandoned, millis, uploads, busy } => {
             let d = Duration::from_millis(*millis as u64);
             let mut h: BlockHandler<CountedEp> = new_handler(BUDGET, d);
             let mine: Vec<CountedEp> = (0..*abandoned as u32).map(|i| CountedEp::new(10 + i, &live)).collect();
@@ -259,7 +282,11 @@ pub fn check(_ctx: &Ctx, c: &Case, acc: &mut Acc) -> Result<(), Fail> {
                 "expected at least one cached key per abandoned transfer, the handler holds {held} endpoint clones for {} transfers",
                 mine.len()
             );
-            std::thread::sleep(d * 4 + Duration::from_millis(20));
+            let busy_live = Arc::new(AtomicIsize::new(0));
+            idle(&mut h, &busy_live, d, *busy)?;
+            if *busy {
+                acc.class("reclamation:handler-busy-with-other-keys");
+            }
             // one use of the handler, on a fresh key
             let fresh_live = Arc::new(AtomicIsize::new(0));
             let fresh = CountedEp::new(9999, &fresh_live);
@@ -275,7 +302,7 @@ pub fn check(_ctx: &Ctx, c: &Case, acc: &mut Acc) -> Result<(), Fail> {
             {
                 let (entries, _bytes) = h.verif_live_entries();
                 ensure!(
-                    entries <= 1,
+                    entries <= 1 + if *busy { 3 } else { 0 },
                     "c20-expired-state-not-reclaimed",
                     "after expiry and one further request the handler reports {entries} live cache entries"
                 );
@@ -309,9 +336,9 @@ pub fn run(ctx: &Ctx, rep: &mut Report) {
         ctx,
         rep,
         "expiry-after-idle",
-        "expiry 20..=60 ms: open a download / buffer an upload block, stay idle for 4x the duration + 20 ms, continue: the follow-up must reach the application / the upload must not contain the earlier bytes",
+        "expiry 20..=60 ms: open a download / buffer an upload block, leave key K idle for 4x the duration + 20 ms (in half of the cases while the handler keeps serving other keys at intervals of a third of the expiry), continue: the follow-up must reach the application / the upload must not contain the earlier bytes",
         n,
-        || (any::<bool>(), 20u16..=60).prop_map(|(upload, millis)| Case::Expiry { upload, millis }),
+        || (any::<bool>(), 20u16..=60, any::<bool>()).prop_map(|(upload, millis, busy)| Case::Expiry { upload, millis, busy }),
         check,
     );
     let n = ctx.cases(32, 200);
@@ -319,9 +346,9 @@ pub fn run(ctx: &Ctx, rep: &mut Report) {
         ctx,
         rep,
         "reclamation-on-next-use",
-        "1..=50 transfers abandoned under distinct endpoints, idle past the expiry, one request on a fresh key: no endpoint clone of the abandoned transfers may remain alive inside the handler",
+        "1..=50 transfers abandoned under distinct endpoints, left idle past the expiry (in half of the cases while the handler stays busy with other keys), one request on a fresh key: no endpoint clone of the abandoned transfers may remain alive inside the handler",
         n,
-        || (1u8..=50, 20u16..=40, any::<bool>()).prop_map(|(abandoned, millis, uploads)| Case::Reclaim { abandoned, millis, uploads }),
+        || (1u8..=50, 20u16..=40, any::<bool>(), any::<bool>()).prop_map(|(abandoned, millis, uploads, busy)| Case::Reclaim { abandoned, millis, uploads, busy }),
         check,
     );
 }
